@@ -97,7 +97,8 @@ def idlist(x):
 def snap_stop_line(sl):
     if sl is None:
         return ("n",)
-    return {"start": [f(c) for c in sl.start], "end": [f(c) for c in sl.end], "line_marking": leaf(sl.line_marking),
+    return {"start": [f(c) for c in sl.start] if sl.start is not None else ("n",),
+            "end": [f(c) for c in sl.end] if sl.end is not None else ("n",), "line_marking": leaf(sl.line_marking),
             "traffic_sign_ref": idlist(sl.traffic_sign_ref), "traffic_light_ref": idlist(sl.traffic_light_ref)}
 
 
